@@ -592,7 +592,7 @@ theorem insertAfter_spec {o : BOrd} {cs1 cs2 : Chains} {pre post : List Nat} {a 
     intro x hx hm
     exact hnot x hx ((h.mem x).mp hm)
   have hma : o.mem a = true := (h.mem a).mpr (by rw [flatten_mid]; simp)
-  exact ⟨_, by simp [BOrd.primitiveInsert, hany, hma], insertLoop_spec bs h hnot hnd⟩
+  exact ⟨_, by simp [BOrd.primitiveInsert, hany, hma, hnd], insertLoop_spec bs h hnot hnd⟩
 
 /-- **add_detached_blocks** on the plain-list specification -/
 theorem addDetached_spec {o : BOrd} {cs : Chains} (b : Nat) (bs : List Nat) (h : Repr o cs)
@@ -602,7 +602,11 @@ theorem addDetached_spec {o : BOrd} {cs : Chains} (b : Nat) (bs : List Nat) (h :
     rw [List.any_eq_false]
     intro x hx hm
     exact hnot x hx ((h.mem x).mp hm)
-  refine ⟨_, by simp only [BOrd.primitiveInsert, hany]; rfl, ?_⟩
+  have hpi : o.primitiveInsert none (b :: bs) = .ok (o.insertLoop none (b :: bs)) := by
+    unfold BOrd.primitiveInsert
+    rw [hany]
+    simp [hnd]
+  refine ⟨_, hpi, ?_⟩
   simp only [BOrd.insertLoop]
   have h1 := linkNone_spec h (hnot b List.mem_cons_self)
   have := insertLoop_spec bs (cs1 := cs) (cs2 := []) (pre := []) (post := []) (a := b)
@@ -617,13 +621,16 @@ theorem addDetached_spec {o : BOrd} {cs : Chains} (b : Nat) (bs : List Nat) (h :
 theorem insert_refusals {o : BOrd} {cs : Chains} (h : Repr o cs) (after : Option Nat)
     (bs : List Nat) :
     ((∃ x ∈ bs, x ∈ cs.flatten) → o.primitiveInsert after bs = .error .valueError) ∧
-    ((∀ x ∈ bs, x ∉ cs.flatten) → ∀ a, after = some a → a ∉ cs.flatten →
+    (¬ bs.Nodup → o.primitiveInsert after bs = .error .valueError) ∧
+    ((∀ x ∈ bs, x ∉ cs.flatten) → bs.Nodup → ∀ a, after = some a → a ∉ cs.flatten →
       o.primitiveInsert after bs = .error .keyError) := by
-  constructor
+  refine ⟨?_, ?_, ?_⟩
   · rintro ⟨x, hx, hxm⟩
     have : bs.any o.mem = true := List.any_eq_true.mpr ⟨x, hx, (h.mem x).mpr hxm⟩
     simp [BOrd.primitiveInsert, this]
-  · intro hnot a ha hna
+  · intro hnd
+    simp [BOrd.primitiveInsert, hnd]
+  · intro hnot hnd a ha hna
     have hany : bs.any o.mem = false := by
       rw [List.any_eq_false]
       intro x hx hm
@@ -632,6 +639,6 @@ theorem insert_refusals {o : BOrd} {cs : Chains} (h : Repr o cs) (after : Option
       cases hm : o.mem a with
       | false => rfl
       | true => exact absurd ((h.mem a).mp hm) hna
-    simp [BOrd.primitiveInsert, hany, ha, this]
+    simp [BOrd.primitiveInsert, hany, ha, this, hnd]
 
 end GtirbVerif.Adt
